@@ -24,3 +24,12 @@ Theorem C14_answer_after_termination_is_for_ever :
   handles s2 h = Some (a, k) -> step s2 (EvQuery c h isrunning b) = Acc s3 -> b = negb isrunning.
 Proof. exact query_after_termination. Qed.
 Print Assumptions C14_answer_after_termination_is_for_ever.
+
+(** The answer flips at one event only: the notifier behind [stopped()] / [running()] (and behind
+    awaiting the address) changes at no event but the end of the actor's task - not when a stop
+    request is accepted or dequeued, not before or while the [stopped] hook runs. *)
+Theorem C14_answer_flips_only_when_the_task_ends :
+  forall s e s' a x x', step s e = Acc s' -> actors s a = Some x -> actors s' a = Some x' ->
+  a_notif x' <> a_notif x -> exists how, e = EvTaskEnd a how.
+Proof. exact notifier_changes_only_at_task_end. Qed.
+Print Assumptions C14_answer_flips_only_when_the_task_ends.
